@@ -313,6 +313,110 @@ def rule_mirror(rep, db):
         (rep.ok if ok else rep.fail)("MIRROR", "bit::test", F.primary_site(fn), F.describe(fn), **({"how": "(value & mask) != 0"} if ok else {"why": "expression is %s, specification (value & mask) != 0" % t}))
 
 
+# ------------------------------------------------------------------------------------------------
+# ARITH: no intermediate of the exact-result helpers can leave the type although the result fits
+
+ARITH_FILES = ("math/ceil_div.hpp", "math/ceil_div_signed.hpp", "math/div.hpp", "math/mod.hpp", "math/clamp.hpp", "math/diff.hpp",
+               "math/detail/diff.hpp", "math/is_power_of_2.hpp", "math/next_power_of_2.hpp", "math/log2.hpp", "math/power_of_2.hpp")
+ARITH_JUSTIFIED = {
+    # (function, operator, operand shape) -> reason; printed on every run
+    ("fcppt::math::detail::diff", "-", "signed"): "signed instantiation: |a - b| representable in T implies a - b representable in T (C01/C06 quantify over representable exact results)",
+}
+
+
+def _bounded(u, x):
+    """an operand whose magnitude is bounded independently of the arguments: literal / constant, Boolean, comparison,
+    sizeof, or a conditional between such values"""
+    x = T.unwrap(u, x)
+    while x is not None and x.get("k") in ("icast", "cast"):
+        x = T.unwrap(u, x.get("e"))
+    if x is None:
+        return True
+    if x.get("k") in ("lit", "sizeof") or "c" in x:
+        return True
+    if x.get("k") == "call" and (T.callee_qn(u, x) or "") == "fcppt::literal":
+        return True
+    if (u.ty(x.get("t")) or "").replace("const ", "") == "bool":
+        return True
+    if x.get("k") == "binop" and x.get("op") in ("<", ">", "<=", ">=", "==", "!=", "&&", "||"):
+        return True
+    if x.get("k") == "cond":
+        return _bounded(u, x.get("then")) and _bounded(u, x.get("else"))
+    return False
+
+
+def rule_arith(rep, db):
+    seen = {}
+
+    def walk(u, fn, n, ordered):
+        if n is None:
+            return
+        if isinstance(n, list):
+            for c in n:
+                walk(u, fn, c, ordered)
+            return
+        k = n.get("k")
+        if k == "lambda":
+            for op in n.get("ops", []):
+                walk(u, fn, op.get("body"), ordered)
+            return
+        if k in ("cond", "if"):
+            c = n.get("c_") if k == "cond" else n.get("cond")
+            walk(u, fn, c, ordered)
+            ct = T.unwrap(u, c)
+            extra = set()
+            if ct is not None and (ct.get("k") == "binop" and ct.get("op") in ("<", "<=", ">", ">=")):
+                extra.add(frozenset((T.norm(u, ct["l"]), T.norm(u, ct["r"]))))
+            elif ct is not None and ct.get("k") == "call" and ct.get("opcall") in ("<", "<=", ">", ">="):
+                ops = ([ct["recv"]] if ct.get("recv") is not None else []) + list(ct.get("args", []))
+                if len(ops) == 2:
+                    extra.add(frozenset((T.norm(u, ops[0]), T.norm(u, ops[1]))))
+            for b in ("then", "else"):
+                walk(u, fn, n.get(b), ordered | extra)
+            return
+        if (k == "binop" and n.get("op") in ("+", "-", "*")) or (k == "compound_assign" and n.get("op") in ("+=", "-=", "*=")):
+            ty = (u.ty(n.get("t")) or "").replace("const ", "")
+            if G.is_integer_type(ty) and not _bounded(u, n["l"]) and not _bounded(u, n["r"]):
+                op = n["op"][0]
+                name = F.fn_name(F.top_function(fn))
+                signed = RG.INT_TYPES.get(ty, (0, False))[1]
+                key = "%s|%s|%s|%s" % (name, op, T.show(T.norm(u, n)), "signed" if signed else "unsigned")
+                ok = None
+                if op == "-" and frozenset((T.norm(u, n["l"]), T.norm(u, n["r"]))) in ordered:
+                    ok = "operands ordered by the enclosing comparison"
+                elif (name, op, "signed" if signed else "unsigned") in ARITH_JUSTIFIED:
+                    ok = "justified"
+                    if key not in seen:
+                        rep.justify("ARITH", key, ARITH_JUSTIFIED[(name, op, "signed" if signed else "unsigned")])
+                a = seen.setdefault(key, {"ok": ok, "site": u.loc(n.get("loc")), "fn": F.describe(fn)[:160], "types": set()})
+                a["types"].add(ty)
+                if ok is None:
+                    a["ok"] = None
+        for c in F.children(n):
+            walk(u, fn, c, ordered)
+    nfn = 0
+    for u in db.units:
+        for fn in u.functions:
+            f = u.file_of(fn["primary"])
+            if not any(f.endswith("fcppt/" + x) for x in ARITH_FILES):
+                continue
+            nfn += 1
+            walk(u, fn, fn.get("body"), frozenset())
+    rep.extra["arith_functions_scanned"] = nfn
+    if nfn < 20:
+        rep.broken("ARITH: only %d instantiations of the integer helpers scanned" % nfn)
+    for key, a in sorted(seen.items()):
+        if a["ok"]:
+            rep.ok("ARITH", key, a["site"], a["fn"], how=a["ok"], detail={"types": sorted(a["types"])})
+        else:
+            rep.fail("ARITH", key, a["site"], a["fn"],
+                     why="both operands of this %s depend on the arguments without bound (types %s): the intermediate can leave the type "
+                         "(wrap for unsigned, undefined for signed) although the exact result of the function is representable"
+                         % (key.split("|")[1], ", ".join(sorted(a["types"]))))
+    if not seen:
+        rep.ok("ARITH", "no-two-sided-arithmetic", "libs/core/include/fcppt/math", "integer helpers", how="census: no +, -, * with two argument-dependent operands")
+
+
 def main(rep, tier, only):
     db = load.load(tier, lib=False, drivers=["drv_integers"])
     rep.extra.update(db.stats())
@@ -322,6 +426,9 @@ def main(rep, tier, only):
     rep.rule("CLAMP", "math::clamp: nothing iff min > max, otherwise max(min(v, max), min) (13 weak orders)", floor=2)
     rep.rule("SIGN", "cast::to_unsigned in the C06 functions is dominated by a sign test of the same operand (or applied to a non-negative constant)", floor=2)
     rep.rule("G", "zero-divisor / shift / unsafe-access guards in the C06 files", floor=8)
+    rep.rule("ARITH", "in the exact-result integer helpers (ceil_div, ceil_div_signed, div, mod, clamp, diff, is_power_of_2, next_power_of_2, log2, power_of_2) "
+                      "no +, -, * has two operands that both depend on the arguments without bound, unless the operands of a subtraction are ordered by "
+                      "the enclosing comparison (or a named justification): such an intermediate can wrap / overflow although the exact result fits", floor=1)
     rep.rule("MIRROR", "is_power_of_2 and bit::test are the specification expressions", floor=2)
     rep.rule("W-types", "type-level witnesses: overload partition of truncation_check over 64 pairs, accepted / rejected argument types, return types", floor=200)
     have = set(fn["_unit"].file_of(fn["primary"]) for fn in db.functions)
@@ -341,6 +448,8 @@ def main(rep, tier, only):
         rule_g(rep, db, files)
     if only in (None, "MIRROR"):
         rule_mirror(rep, db)
+    if only in (None, "ARITH"):
+        rule_arith(rep, db)
     if only in (None, "W-types"):
         cd = P.cache_dir()
         path = os.path.join(P.VERIF, "witness", "c06_casts.cpp")
